@@ -170,13 +170,19 @@ type nopCloser struct{ io.Reader }
 
 func (nopCloser) Close() error { return nil }
 
-// send transports v with the bundled client's struct-encoding API of the given source.
-func (st *station) send(src source, v any) (status int, body string, err error) {
-	r := st.cl.R()
-	method := fiber.MethodPost
+// methodOf: the HTTP method the harness uses for a carrier.
+func methodOf(src source) string {
+	switch src {
+	case srcQuery, srcHeader, srcCookie:
+		return fiber.MethodGet
+	}
+	return fiber.MethodPost
+}
+
+// configure applies v to the request with the bundled client's struct-encoding API of the given source.
+func configure(r *client.Request, src source, v any) {
 	switch src {
 	case srcQuery:
-		method = fiber.MethodGet
 		r.SetParamsWithStruct(v)
 	case srcForm:
 		r.SetFormDataWithStruct(v)
@@ -185,10 +191,8 @@ func (st *station) send(src source, v any) (status int, body string, err error) 
 		// the client switches to multipart/form-data when a file is attached
 		r.AddFileWithReader("blob.bin", nopCloser{strings.NewReader("x")})
 	case srcHeader:
-		method = fiber.MethodGet
 		client.SetValWithStruct(headerSink{r}, "header", v)
 	case srcCookie:
-		method = fiber.MethodGet
 		r.SetCookiesWithStruct(v)
 	case srcJSON:
 		r.SetJSON(v)
@@ -197,8 +201,12 @@ func (st *station) send(src source, v any) (status int, body string, err error) 
 	case srcCBOR:
 		r.SetCBOR(v)
 	}
+}
+
+// fire sends a configured request to the station's server and releases request and response.
+func (st *station) fire(r *client.Request, src source) (status int, body string, err error) {
 	st.obs = obs{}
-	resp, err := r.SetMethod(method).SetURL("http://c11.test/").Send()
+	resp, err := r.SetMethod(methodOf(src)).SetURL("http://c11.test/").Send()
 	if err != nil {
 		client.ReleaseRequest(r)
 		return 0, "", err
@@ -207,6 +215,13 @@ func (st *station) send(src source, v any) (status int, body string, err error) 
 	body = string(resp.Body())
 	resp.Close()
 	return status, body, nil
+}
+
+// send transports v with the bundled client's struct-encoding API of the given source (fresh request).
+func (st *station) send(src source, v any) (status int, body string, err error) {
+	r := st.cl.R()
+	configure(r, src, v)
+	return st.fire(r, src)
 }
 
 // raw serves raw request bytes on the station's server (no client involved).
